@@ -89,8 +89,15 @@ def explore(ctx, shape, tier, report):
         report.witness('announced' if announced else 'not-announced')
         info['ev'] = ev
         info['observed'] = dict(announced=len(announced), acknowledged=(replies[0].vname if len(replies) == 1 and isinstance(replies[0], Enum) else 'none'))
+        # replayable instances: the native builder lays the entries out in the order given, so the dates of a list must ascend
+        asc = []
+        ge0 = ev.groups[0]
+        for lst in ([d for (_, d, _) in ev.admins], [d for (_, d, _) in ge0.users], [d for (_, d, _) in ge0.user_admins], [d for (_, d, _, _) in ge0.rights]):
+            asc += [a.z() < b.z() for a, b in zip(lst, lst[1:])]
+        asc = zand(*asc)
+        info['asc'] = asc
         if report.want_sample(bool(announced)):
-            ms = ctx.check_sat(True)
+            ms = ctx.check_sat(asc)
             if ms is not None:
                 report.sample(scenario(ctx, ms, 'sample', info))
         registered = [c.v for k, c in deref(w.field(ra.v, 'RoomAuthorisations', 'rooms').v).entries if s_eq(k, ROOM_ID) is True]
@@ -115,11 +122,11 @@ def explore(ctx, shape, tier, report):
                 problems.append('a failed write is not reported')
         if problems:
             info['problem'] = problems[0]
-            report.violation(ctx, ctx.check_sat(True), 'room-event', info)
+            report.violation(ctx, ctx.check_sat(asc) or ctx.check_sat(True), 'room-event', info)
             return
         if shape['result'] == 'Ok':
             c = deep_eq(announced[0].fields[0].v, expected)
-            m = ctx.check_sat(znot(zb(c)))
+            m = ctx.check_sat(zand(znot(zb(c)), asc)) or ctx.check_sat(znot(zb(c)))
             if m is not None:
                 info['problem'] = 'the announced room is not the definition that was stored'
                 report.violation(ctx, m, 'room-event', info)
